@@ -52,6 +52,14 @@ add('C05', 'model_checking',
     'Reference decoder correctness (validated on PICO-8-written carts); offsets restricted to a boundary set per state.',
     'DESIGN.md 4/C05')
 
+add('C04', 'exploration',
+    'bounded-exhaustive cart/code-size/destination families through the real .p8.png writer on real paths, judged by an '
+    'independent PNG decoder + stego unpacker + :c: decoder and by the real reader',
+    'Region covering family, versions 0-41/255, every code length 0-40 (compressible and not), raw and compressed sizes '
+    'at the 0x3d00 capacity boundary (+-1, thorough +-2), _update60 sources, both destination states, conversion chain.',
+    'Reference decoders correct; code sizes between 41 bytes and the capacity edge covered at selected sizes only.',
+    'DESIGN.md 4/C04')
+
 PENDING = {
 }
 
